@@ -300,7 +300,8 @@ def run(run: Run, pkg: Package) -> None:
                "no difference" if wit is None else wit, witness=wit, loc=loc)
 
 
-def numeric_witness(ret, R, H, M, trials=40):
+def numeric_witness(ret, R, H, M, trials=40, lengths=None):
+    """`lengths`: a term standing for the box-length vector of the same cell (diag of the LAMMPS h-matrix)."""
     rng = np.random.default_rng(12345)
     for t in range(trials):
         d = 2 + (t % 2)
@@ -309,7 +310,10 @@ def numeric_witness(ret, R, H, M, trials=40):
         Rm = rng.uniform(-6, 6, (3, d))
         Mm = rng.integers(0, 2, d)
         try:
-            got = eval_np(ret, {R: Rm, H: Hm, M: Mm})
+            env = {R: Rm, H: Hm, M: Mm}
+            if lengths is not None:
+                env[lengths] = np.diag(Hm).copy()
+            got = eval_np(ret, env)
         except Exception:
             return None
         A = Rm @ np.linalg.inv(Hm)
